@@ -642,7 +642,11 @@ impl FileTransferPlugin {
                         }
                         if par_dir.exists() {
                             // try to write the file:
-                            if let Ok(()) = File::create(&path)
+                            // (create_new: never through an existing name, e.g. a dangling symbolic link pointing elsewhere)
+                            if let Ok(()) = std::fs::OpenOptions::new()
+                                .write(true)
+                                .create_new(true)
+                                .open(&path)
                                 .and_then(|mut f| f.write_all(&file_transfer.file_data))
                             {
                                 file_transfer.auto_saved_to = path.to_str().map(|p| p.to_owned());
